@@ -20,11 +20,15 @@ def loop_plan(prop):
         if tier == "quick":
             ctx.mc_replay("hist2", "MC_Loop.tla", "MC_Loop_hist.cfg", "fam_loop.json", props, variants=2, consts={"MaxLen": 2})
             ctx.mc_replay("cover", "MC_Loop.tla", "MC_Loop_cover.cfg", "fam_loopq.json", props, variants=2, workers=8)
-            ctx.trace("sessions", props, sessions=40, calls=25)
+            if prop in ("C08", "C09"):
+                ctx.mc_replay("nest5", "MC_Loop.tla", "MC_Loop_hist.cfg", "fam_nest.json", props, variants=1, consts={"MaxLen": 5})
+            ctx.trace("sessions", props, sessions=40, calls=25, check_attrs=True)
         else:
             ctx.mc_replay("hist3", "MC_Loop.tla", "MC_Loop_hist.cfg", "fam_loop.json", props, variants=3, consts={"MaxLen": 3}, timeout=3000)
             ctx.mc_replay("cover", "MC_Loop.tla", "MC_Loop_cover.cfg", "fam_loop.json", props, variants=3, timeout=3000)
-            ctx.trace("sessions", props, sessions=400, calls=40, timeout=3000)
+            if prop in ("C08", "C09"):
+                ctx.mc_replay("nest7", "MC_Loop.tla", "MC_Loop_hist.cfg", "fam_nest.json", props, variants=1, consts={"MaxLen": 7}, timeout=3000)
+            ctx.trace("sessions", props, sessions=400, calls=40, timeout=3000, check_attrs=True)
         return dict(rule=LOOP_RULE, exhaustive=False, assumptions=ASSUME_COMMON)
     return run
 
